@@ -1029,7 +1029,8 @@ def r13_5(ctx: Ctx):
     ctx.ob("R13.5", closing, "back-fill guarded by %s" % sorted(gfill - empty_exit), undeclared in gfill and gfill - {undeclared} <= empty_exit,
            "the count is back-filled exactly when it was not declared up front", node=fill)
     # declared count: a mismatch with the number of records written is an error
-    mism = [n_ for n_ in walk_no_nested(closing.node) if isinstance(n_, ast.If) and norm(n_.test).replace(" ", "") in
+    from ..pat import expand_single_defs as _xsd13
+    mism = [n_ for n_ in walk_no_nested(closing.node) if isinstance(n_, ast.If) and norm(_xsd13(closing.node, n_.test)).replace(" ", "") in
             ("self._natoms!=self._current_atom", "self._current_atom!=self._natoms")
             and any(isinstance(x, ast.Raise) for x in n_.body)]
     ctx.ob("R13.5", closing, mism[0] if mism else "declared-count check", bool(mism),
